@@ -1,4 +1,6 @@
 """Lanelet networks on a dyadic lattice (multiples of 1/8): exact geometry oracles apply (C06, C07, C10)."""
+import math
+
 import numpy as np
 
 Q = 8  # lattice denominator
@@ -22,6 +24,14 @@ def strip(rng, x0, y0, n, dx, width, wobble=True, vertical=False):
         left = [(y, x) for x, y in left]
     right, left = np.array(right, dtype=float), np.array(left, dtype=float)
     return left, (left + right) / 2, right
+
+
+def arc(cx, cy, radius, width, n=7, a0=0.0, a1=math.pi / 2):
+    """left/center/right polylines of a lanelet that follows a circular arc (driving counter-clockwise: the left boundary
+    is the inner, shorter one): boundary segments and centre segments differ in length"""
+    ang = [a0 + (a1 - a0) * k / (n - 1) for k in range(n)]
+    ring = lambda r: np.array([(cx + r * math.cos(a), cy + r * math.sin(a)) for a in ang], dtype=float)  # noqa
+    return ring(radius - width / 2), ring(radius), ring(radius + width / 2)
 
 
 def lanelet(lid, polylines, **kw):
@@ -163,4 +173,15 @@ def query_shapes(rng, lanelets, G):
         u = np.array([[xe - 6.0, yr - g - 1.0], [xe + 2.0, yr - g - 1.0], [xe + 2.0, yl + g + 1.0], [xe - 6.0, yl + g + 1.0],
                       [xe - 6.0, yl + g], [xe + 1.0, yl + g], [xe + 1.0, yr - g], [xe - 6.0, yr - g]])
         out.insert(1, ("u-polygon-around-lanelet-end", Polygon(u), True))
+    # a shape group whose FIRST member only comes near a lanelet (its bounding box overlaps the lanelet's bounding box at a
+    # corner, the thin diagonal box itself stays clear of it) and whose SECOND member lies on that lanelet: the group is the
+    # union of its members whatever the order in which the index hands out candidates
+    from commonroad.geometry.shape import ShapeGroup
+    la = rng.choice(lanelets)
+    ring = np.concatenate((la.right_vertices, la.left_vertices[::-1]))
+    xmin, ymin = float(ring[:, 0].min()), float(ring[:, 1].min())
+    near = Rectangle(6.0, 0.2, np.array([xmin - 1.5, ymin - 1.5]), -math.pi / 4)
+    cm = la.center_vertices[len(la.center_vertices) // 2]
+    on = Rectangle(0.5, 0.25, np.array([float(cm[0]), float(cm[1])]), 0.0)
+    out.insert(2, ("group-near-member-then-member-on-lanelet", ShapeGroup([near, on]), False))
     return out
